@@ -66,6 +66,16 @@ CHECKS = {
         "are validated against GdsReader.tla (no read after ENDLIB).",
    note="Trusted: TLC, projection glue, the logging source. Hook: cfg-guarded re-export of GdsReader/GdsParser.",
    tech="TLA+ grammar/codec as encoder (TLC exhaustive + simulation); S->I replay; I->S read-log validation"),
+ "C10": dict(cat="fault_enumeration", ref="§6 C10",
+   text="MC_GdsFaults.tla composes every behaviour of the independent encoder with exactly one fault action (truncation at "
+        "every byte, length-field/zero-payload/type faults, drop/dup/swap/splice) and TLC enumerates every (stream, fault) pair "
+        "with the model fact HasEndlib; each faulted stream, the same faults on repository streams and random noise are parsed "
+        "through an instrumented source in a watched child process: outcome Ok|Err only, no ENDLIB => Err, Ok => write/read "
+        "round trip; read logs are validated against GdsReader.tla (work bound: offsets monotone, calls <= length+4, nothing "
+        "after ENDLIB).",
+   note="Trusted: TLC, the logging source, child-process isolation. 'Time proportional to length' is a work bound on the I/O "
+        "log plus a watchdog, not a clock measurement.",
+   tech="TLA+ fault actions over the grammar spec, TLC enumeration; S->I replay; I->S read-log validation"),
 }
 
 PENDING = {}
